@@ -650,8 +650,10 @@ def l0_optimizer(n, sd, maxin=200):
         if r["rc"] != 0 or "No error has been found" not in r["out"]:
             raise Infra("L0 Optimizer model check failed (specification-level, not a verdict about the code):\n" + r["out"][-3000:])
         p = run_tlc("MCOptimizer", "MC_Optimizer_pinned.cfg", env=dict(MC_SCEN=scen, MC_MAXIN=maxin), timeout=3600, check=False)
+        q = run_tlc("MCOptimizer", "MC_Optimizer_onepass.cfg", env=dict(MC_SCEN=scen, MC_MAXIN=maxin), timeout=3600, check=False)
         res = dict(scenarios=len(scs), states=r["distinct"], transitions=r["states"], wall=round(r["wall"], 1),
-                   pinned_rules_refuted="Invariant Sound is violated" in p["out"])
+                   pinned_rules_refuted="Invariant Sound is violated" in p["out"],
+                   single_analysis_pass_refuted="Invariant SoundCode is violated" in q["out"])
         shutil.rmtree(work, ignore_errors=True)
         os.makedirs(os.path.dirname(key), exist_ok=True)
         with open(key, "w") as fh:
